@@ -110,11 +110,17 @@ type c02state struct {
 type c02op struct {
 	Kind    string `json:"kind"`    // block | eon | release | restart
 	Dt      int64  `json:"dt"`      // block: timestamp delta to the head
-	Content string `json:"content"` // block: none | regA | regB | regOther | trig | hit | miss ; eon: start|success|fail ; release: A|B|X
+	Content string `json:"content"` // block: none | regA | regB | regOther | trig | trigB | hit | miss ; eon: start|success|fail ; release: A|B|X
+	// Skip (block): the block is added to the chain but the keyper does not get to
+	// process it (it lags); the next processed block then syncs a range of several blocks.
+	Skip bool `json:"skip,omitempty"`
 }
 
 func (o c02op) String() string {
 	if o.Kind == "block" {
+		if o.Skip {
+			return fmt.Sprintf("unprocessed-block(%+d,%s)", o.Dt, o.Content)
+		}
 		return fmt.Sprintf("block(%+d,%s)", o.Dt, o.Content)
 	}
 	return o.Kind + "(" + o.Content + ")"
@@ -403,8 +409,12 @@ func (h *c02h) apply(s *c02state, o c02op, st *report.Stats) (ns *c02state, viol
 		logs = append(logs, fakechain.IdentityRegistered(syncx.RegistryAddr, c02OtherSet, prefix32(0xc3), sender, c02T1))
 		m.Regs = append(m.Regs, c02reg{0xc3, c02OtherSet, c02T1, num})
 	case "trig":
-		logs = append(logs, fakechain.EventTriggerRegistered(syncx.TriggerRegistryAddr, c02Set, prefix32(0xe5), sender, c02def(), num+2))
-		m.Trigs = append(m.Trigs, c02trig{0xe5, c02Set, num + 2, num, c02def()})
+		logs = append(logs, fakechain.EventTriggerRegistered(syncx.TriggerRegistryAddr, c02Set, prefix32(0xe5), sender, c02def(), num+3))
+		m.Trigs = append(m.Trigs, c02trig{0xe5, c02Set, num + 3, num, c02def()})
+	case "trigB":
+		// a second trigger with the same definition (same log filter) that expires earlier
+		logs = append(logs, fakechain.EventTriggerRegistered(syncx.TriggerRegistryAddr, c02Set, prefix32(0xe6), sender, c02def(), num+1))
+		m.Trigs = append(m.Trigs, c02trig{0xe6, c02Set, num + 1, num, c02def()})
 	case "hit":
 		logs = append(logs, fakechain.LogSpec{Address: syncx.TargetAddr, Topics: []common.Hash{topicHit}, Data: common.BigToHash(big.NewInt(1)).Bytes()})
 		m.HitLogs = append(m.HitLogs, num)
@@ -434,6 +444,11 @@ func (h *c02h) apply(s *c02state, o c02op, st *report.Stats) (ns *c02state, viol
 	id := ch.AddBlockAt(s.head, "t", t, logs...)
 	ch.SetHead(id)
 	b := ch.Block(id)
+	if o.Skip {
+		ns.db, ns.chain, ns.head, ns.ltt = s.db, ch, id, s.ltt
+		st.Class("block added that the keyper does not process (it lags)")
+		return ns, ""
+	}
 	m.Observed = append(m.Observed, c02blk{num, t})
 	decryptedBefore := map[string]bool{}
 	for kk := range m.Decrypted {
@@ -521,34 +536,39 @@ func c02alphabet() []c02op {
 	var ops []c02op
 	for _, dt := range []int64{5, 0, -3} {
 		for _, c := range []string{"none", "regA", "regB", "regE", "regMany", "regOther", "trig", "hit", "miss", "missAbove", "missHigh"} {
-			ops = append(ops, c02op{"block", dt, c})
+			ops = append(ops, c02op{Kind: "block", Dt: dt, Content: c})
 		}
 	}
+	ops = append(ops, c02op{Kind: "block", Dt: 5, Content: "trigB"})
+	for _, c := range []string{"none", "hit", "trig", "trigB"} {
+		ops = append(ops, c02op{Kind: "block", Dt: 5, Content: c, Skip: true})
+	}
 	for _, c := range []string{"start", "success", "fail"} {
-		ops = append(ops, c02op{"eon", 0, c})
+		ops = append(ops, c02op{Kind: "eon", Dt: 0, Content: c})
 	}
 	for _, c := range []string{"A", "B", "X"} {
-		ops = append(ops, c02op{"release", 0, c})
+		ops = append(ops, c02op{Kind: "release", Dt: 0, Content: c})
 	}
-	return append(ops, c02op{"restart", 0, ""})
+	return append(ops, c02op{Kind: "restart", Dt: 0, Content: ""})
 }
 
 func c02seeds() [][]c02op {
 	return [][]c02op{
 		{},
-		{{"eon", 0, "start"}, {"eon", 0, "success"}, {"block", 5, "regA"}, {"block", 5, "regB"}},
-		{{"eon", 0, "start"}, {"eon", 0, "success"}, {"block", 5, "trig"}, {"block", 5, "regA"}},
-		{{"eon", 0, "start"}, {"block", 5, "regA"}, {"block", 5, "trig"}, {"block", 5, "hit"}},
-		{{"eon", 0, "start"}, {"eon", 0, "fail"}, {"eon", 0, "start"}, {"block", 5, "regA"}, {"block", 5, "regOther"}},
-		{{"eon", 0, "start"}, {"block", 5, "regMany"}, {"block", 5, "regA"}, {"block", 5, "regE"}, {"block", 5, "none"}},
-		{{"eon", 0, "start"}, {"eon", 0, "success"}, {"block", 5, "regMany"}, {"block", 5, "regA"}},
+		{{Kind: "eon", Dt: 0, Content: "start"}, {Kind: "eon", Dt: 0, Content: "success"}, {Kind: "block", Dt: 5, Content: "regA"}, {Kind: "block", Dt: 5, Content: "regB"}},
+		{{Kind: "eon", Dt: 0, Content: "start"}, {Kind: "eon", Dt: 0, Content: "success"}, {Kind: "block", Dt: 5, Content: "trig"}, {Kind: "block", Dt: 5, Content: "regA"}},
+		{{Kind: "eon", Dt: 0, Content: "start"}, {Kind: "block", Dt: 5, Content: "regA"}, {Kind: "block", Dt: 5, Content: "trig"}, {Kind: "block", Dt: 5, Content: "hit"}},
+		{{Kind: "eon", Dt: 0, Content: "start"}, {Kind: "eon", Dt: 0, Content: "fail"}, {Kind: "eon", Dt: 0, Content: "start"}, {Kind: "block", Dt: 5, Content: "regA"}, {Kind: "block", Dt: 5, Content: "regOther"}},
+		{{Kind: "eon", Dt: 0, Content: "start"}, {Kind: "block", Dt: 5, Content: "regMany"}, {Kind: "block", Dt: 5, Content: "regA"}, {Kind: "block", Dt: 5, Content: "regE"}, {Kind: "block", Dt: 5, Content: "none"}},
+		{{Kind: "eon", Dt: 0, Content: "start"}, {Kind: "eon", Dt: 0, Content: "success"}, {Kind: "block", Dt: 5, Content: "regMany"}, {Kind: "block", Dt: 5, Content: "regA"}},
+		{{Kind: "eon", Content: "start"}, {Kind: "eon", Content: "success"}, {Kind: "block", Dt: 5, Content: "trig"}, {Kind: "block", Dt: 5, Content: "trigB"}},
 	}
 }
 
 func c02() *report.Check {
 	return &report.Check{
 		Level: "model_checking",
-		Rule:  "explicit-state BFS from five scripted seed states over {next block with timestamp delta in {+5, 0, -3} and content in {nothing, registration A (release time between blocks), registration B (release time equal to a block time), registration E (release time already past, matters below the activation block), registration for a set the keyper is not in, event-trigger registration (topic and value bound) expiring two blocks later, matching log, logs missing on the topic / just above the bound / above 2^64 with low bits inside the bound}, eon start / success / failure, key release for A / B / the trigger identity, restart}; every block processed by the real processNewBlock with the real syncers on a fake chain, every emitted trigger consumed by the real KeyShareHandler through the service middleware; monitor from the statement on every identity of every trigger and of every published shares message. Classes = kinds of step and numbers of triggers / shares",
+		Rule:  "explicit-state BFS from five scripted seed states over {next block with timestamp delta in {+5, 0, -3} and content in {nothing, registration A (release time between blocks), registration B (release time equal to a block time), registration E (release time already past, matters below the activation block), registration for a set the keyper is not in, event-trigger registration (topic and value bound) expiring three blocks later, a second registration with the same definition expiring one block later, blocks the keyper does not process (so that the next one syncs a range of several blocks), matching log, logs missing on the topic / just above the bound / above 2^64 with low bits inside the bound}, eon start / success / failure, key release for A / B / the trigger identity, restart}; every block processed by the real processNewBlock with the real syncers on a fake chain, every emitted trigger consumed by the real KeyShareHandler through the service middleware; monitor from the statement on every identity of every trigger and of every published shares message. Classes = kinds of step and numbers of triggers / shares",
 		Assumptions: []string{
 			"the identity of a registration is looked up in the keyper's own event tables (their correctness is C15/C16's subject)",
 			"safety only: that an eligible identity is eventually triggered is not demanded",
